@@ -48,8 +48,6 @@ func HRepeatSqli(unit int, holes int, k int, pre int, perByte int, slack int) {
 	vAssert(c2 <= 2*c1+c1/4+slack, "doubling the input at most doubles the cost of IsSQLi")
 	vObserveStr("input", s1)
 	vObserveInt("len1", len(s1))
-	vObserveInt("c1", c1)
-	vObserveInt("c2", c2)
 	vCover("checked")
 }
 
@@ -74,9 +72,6 @@ func HRepeatXss(unit int, holes int, k int, pre int, perByte int, slack int) {
 	vAssert(d2 <= d1, "call depth does not grow with the input length")
 	vObserveStr("input", s1)
 	vObserveInt("len1", len(s1))
-	vObserveInt("c1", c1)
-	vObserveInt("c2", c2)
-	vObserveInt("d2", d2)
 	vCover("checked")
 }
 
